@@ -209,6 +209,7 @@ pub fn iter_protocol(_r: &dyn Runner, _tier: Tier, st: &St, out: &mut Vec<Edge>)
 pub fn clones(r: &dyn Runner, _tier: Tier, _st: &St, out: &mut Vec<Edge>) {
     use crate::exec_clone::{N_TARGETS, N_THEN};
     if r.cloneable() { for then in 0..2 * N_THEN { out.push(Edge::CloneVec { then }); } }
+    if r.cloneable() { for dst in 0..crate::caps::N_FOREIGN { for then in 0..N_THEN { out.push(Edge::CloneFrom { dst, then }); } } }
     for then in 0..N_THEN { out.push(Edge::CloneEmpty { then }); }
     for target in 0..N_TARGETS { for then in 0..N_THEN { out.push(Edge::CloneEmptyIn { target, then }); } }
 }
@@ -445,7 +446,8 @@ pub fn reports(prop: Prop, class: Class, kind: &str, e: &Edge) -> bool {
         Prop::C05 => class == Class::Mem || (class == Class::Own && matches!(kind, "garbage-visible" | "garbage-drop" | "clone-of-garbage")),
         Prop::C06 | Prop::C07 => matches!(class, Class::Own | Class::Vec | Class::Mem),
         Prop::C10 => matches!(class, Class::Cap | Class::Vec),
-        Prop::C11 => matches!(class, Class::Cap | Class::Vec | Class::Alloc),
+        // "splice beyond it leaves them valid": after a capacity panic no destroyed / moved-out value may be visible or destroyed again
+        Prop::C11 => matches!(class, Class::Cap | Class::Vec | Class::Alloc) || (class == Class::Own && matches!(kind, "dead-visible" | "garbage-visible" | "duplicate" | "double-drop" | "garbage-drop")),
         Prop::C12 => matches!(class, Class::Vec | Class::Mem | Class::Cap),
         Prop::C17 => matches!(class, Class::Vec | Class::Type | Class::Own | Class::Alloc),
         Prop::C14 => class == Class::Iter,
